@@ -437,6 +437,10 @@ theorem lookup_update_ne (k k' : String) (v : Val) (h : k' ≠ k) : ∀ fs : Lis
     assignTo ev (.sel (.var a) f) v st = (match st.env a with
       | some r => setField f v r >>= fun r' => pure (st.set a r')
       | none => .stuck ("unbound " ++ a)) := rfl
+@[gomini] theorem assignTo_sel_sel_var (ev : Expr → St → R (Val × St)) (a g f : String) (v : Val) (st : St) :
+    assignTo ev (.sel (.sel (.var a) g) f) v st = (match st.env a with
+      | some r => getField g r >>= fun inner => setField f v inner >>= fun inner' => setField g inner' r >>= fun r' => pure (st.set a r')
+      | none => .stuck ("unbound " ++ a)) := rfl
 @[gomini] theorem assignTo_idx_var (ev : Expr → St → R (Val × St)) (a : String) (i : Expr) (v : Val) (st : St) :
     assignTo ev (.idx (.var a) i) v st = (ev i st >>= fun r =>
       match r.2.env a, r.1 with
